@@ -610,8 +610,51 @@ def oracleCast2 (args out : List String) : String :=
       | _, _, _ => "fail unparsable-or-nonfinite-output"
     | _ => "fail unparsable-output"
 
-def handler (fn : String) : Option Handler :=
+/-- `s1 pos1 s2 pos2` for the exact corner referee (any primitive kinds) -/
+def pXWorld : P XPair := do
+  let a ← pshape; let m1 ← piso3; let b ← pshape; let m2 ← piso3
+  pure ⟨a, qiso3 m1, b, qiso3 m2⟩
+
+def handlerCore (fn : String) : Option Handler :=
   match fn with
+  /- ---------------- degenerate-but-valid corners: free functions against the exact referee (oracle-only) -------- -/
+  | "x_contact" => some {
+      model := fun _ => some "oracle-only"
+      oracle := fun a o => match run (do let x ← pXWorld; let p ← pf; pure (x, p)) a with
+        | some (P, p) =>
+          if o = ["unsupported"] then "skip unsupported-pair" else
+          withOut pcontactOut o fun r =>
+            if !(r.all finiteContact) then "fail non-finite-output x_contact" else
+            if q p < 0 then "skip negative-parameter" else
+            judgeXContact P (q p) (r.map qcontact)
+        | none => "skip bad-args" }
+  | "x_cp" => some {
+      model := fun _ => some "oracle-only"
+      oracle := fun a o => match run (do let x ← pXWorld; let p ← pf; pure (x, p)) a with
+        | some (P, p) =>
+          if o = ["unsupported"] then "skip unsupported-pair" else
+          if o = ["panic"] then (if q p < 0 then "skip negative-margin" else "fail panic-with-nonnegative-margin") else
+          withOut pcpOut o fun r => match r with
+            | none => "fail unparsable-output"
+            | some r =>
+              if !finiteCP r then "fail non-finite-output x_cp" else
+              if q p < 0 then "skip negative-margin" else judgeXCP P (q p) (qcp r)
+        | none => "skip bad-args" }
+  | "x_distance" => some {
+      model := fun _ => some "oracle-only"
+      oracle := fun a o => match run pXWorld a with
+        | some P =>
+          if o = ["unsupported"] then "skip unsupported-pair" else
+          withOut pfo o fun r =>
+            if !FloatIO.isFinite r then "fail non-finite-output x_distance" else judgeXDistance P (q r)
+        | none => "skip bad-args" }
+  | "x_it" => some {
+      model := fun _ => some "oracle-only"
+      oracle := fun a o => match run pXWorld a with
+        | some P =>
+          if o = ["unsupported"] then "skip unsupported-pair" else
+          withOut pbool o fun r => judgeXIT P r
+        | none => "skip bad-args" }
   /- ---------------- isometry group glue ---------------- -/
   | "iso_inverse" => some {
       model := fun a => run (do let m ← piso3; pure (fiso3 m.inverse)) a
@@ -944,5 +987,8 @@ def handler (fn : String) : Option Handler :=
   | "o2_cast" => some { model := fun _ => some "oracle-only", oracle := fun a o => oracleCast2 a o }
   /- ---------------- closed-form cuboid/cuboid separating-axis test (SatDriver.lean) ---------------- -/
   | _ => satHandler fn
+
+/-- every C03 oracle starts with the totality clause (`fail non-finite-output …`, see `guardFinite`) -/
+def handler (fn : String) : Option Handler := (handlerCore fn).map (guardFinite fn)
 
 end C03
